@@ -115,9 +115,34 @@ def rule_is_mine(ctx: Ctx, rep: Report) -> None:
     rule = "C14.is_mine"
     io = ctx.func(f"{DS}.Descriptor.index_of")
     txt = norm(io.node)
-    rep.ob(rule, "index_of:whole_script", "candidate.script == script" in txt and "_validated_script_from(" in txt, io.where(), "compares candidate.script == script (whole scripts)")
-    rep.ob(rule, "index_of:range", "for index in range(last + 1)" in txt and "last = last_index if self.is_ranged else 0" in txt, io.where(), "searches 0..last_index inclusive (only 0 when not ranged)")
-    rep.ob(rule, "index_of:all_scripts", "for candidate in self.script_pub_keys(index, prv_keys)" in txt, io.where(), "every script the descriptor derives at the index")
+    from sa.canon import expand
+    # the loops: an outer one over range(<last> + 1), an inner one over self.script_pub_keys(<outer var>, ...)
+    loops = [(n.target, n.iter, n) for n in own_nodes(io.node) if isinstance(n, (ast.For, ast.comprehension))]
+    outer = [(t, it) for t, it, _ in loops if isinstance(it, ast.Call) and call_name(it) == "range" and isinstance(t, ast.Name)]
+    inner = [(t, it) for t, it, _ in loops if isinstance(it, ast.Call) and norm(it.func) == "self.script_pub_keys" and isinstance(t, ast.Name)]
+    ok_range = False
+    for t, it in outer:
+        if len(it.args) == 1:
+            hi = expand(io, it.args[0]).replace("(", "").replace(")", "").replace(" ", "")
+            ok_range |= hi in ("last_indexifself.is_rangedelse0+1", "1+last_indexifself.is_rangedelse0")
+        elif len(it.args) == 2 and norm(it.args[0]) == "0":
+            hi = expand(io, it.args[1]).replace("(", "").replace(")", "").replace(" ", "")
+            ok_range |= hi in ("last_indexifself.is_rangedelse0+1", "1+last_indexifself.is_rangedelse0")
+    rep.ob(rule, "index_of:range", ok_range, io.where(), "searches 0..last_index inclusive (only 0 when not ranged)" if ok_range else
+           f"the search range is {[norm(it) for _, it in outer]}: not 0..last_index inclusive (0 alone when not ranged)")
+    ok_all = any(it.args and any(norm(it.args[0]) == o.id for o, _ in outer) for _, it in inner)
+    rep.ob(rule, "index_of:all_scripts", ok_all, io.where(), "every script the descriptor derives at the index is a candidate")
+    # the comparison: <candidate>.script == <the validated script>, whole on both sides
+    val = {norm(a.targets[0]) for a in own_nodes(io.node) if isinstance(a, ast.Assign) and isinstance(a.value, ast.Call) and call_name(a.value) == "_validated_script_from"}
+    cands = {t.id for t, _ in inner}
+    cmp_ok = False
+    for c in own_nodes(io.node):
+        if isinstance(c, ast.Compare) and len(c.ops) == 1 and isinstance(c.ops[0], ast.Eq):
+            sides = [c.left, c.comparators[0]]
+            a = [x for x in sides if isinstance(x, ast.Attribute) and x.attr == "script" and isinstance(x.value, ast.Name) and x.value.id in cands]
+            b = [x for x in sides if isinstance(x, ast.Name) and x.id in val]
+            cmp_ok |= bool(a) and bool(b)
+    rep.ob(rule, "index_of:whole_script", cmp_ok and bool(val), io.where(), "compares each candidate's whole script with the validated script handed in")
     rets = [n for n in own_nodes(io.node) if isinstance(n, ast.Return)]
     rep.ob(rule, "index_of:not_mine_is_None", any(isinstance(r.value, ast.Constant) and r.value.value is None for r in rets), io.where(), "no match answers None")
     po = ctx.func(f"{WA}.RangedWallet.position_of")
